@@ -128,8 +128,6 @@ func checkC06(c C06Case, o *Obs) error {
 			}
 		}
 	}
-	o.Count("read_schedules", schedules)
-
 	if c.Text.wellFormed() {
 		// well-formed input: no errors, and CRLF decodes to the same records
 		for i, it := range base {
@@ -143,11 +141,24 @@ func checkC06(c C06Case, o *Obs) error {
 		if p != nil || over || !sameKeys(got, base) {
 			return fmt.Errorf("%s: CRLF rendering decodes to %s, LF rendering to %s (panic %v; LF input %s)", c.Format, describeItems(got), describeItems(base), p, gen.Abbrev(text))
 		}
-		if err := compare2(codec, crlf, got, c.Chunks, limit); err != nil {
-			return fmt.Errorf("%s: CRLF rendering: %v", c.Format, err)
+		crlfSchedules := [][]int{c.Chunks, {2}, {3}, {5}, {7}, {4096}}
+		if len(crlf) <= 6000 {
+			crlfSchedules = append(crlfSchedules, []int{1})
+		}
+		if len(crlf) <= 300 {
+			for i := 1; i < len(crlf); i++ {
+				crlfSchedules = append(crlfSchedules, []int{i, len(crlf)})
+			}
+		}
+		for _, sizes := range crlfSchedules {
+			schedules++
+			if err := compare2(codec, crlf, got, sizes, limit); err != nil {
+				return fmt.Errorf("%s: CRLF rendering: %v", c.Format, err)
+			}
 		}
 	}
 
+	o.Count("read_schedules", schedules)
 	if c.Files {
 		o.Class("file")
 		o.Class("gz")
